@@ -18,4 +18,5 @@ for c in m['checks']:
     assert e.get('violations',0)==0
 print('manifest+evidence valid')
 PY
+[ $rc -ne 0 ] && echo "SOME CHECK DID NOT PASS - do not commit this evidence"
 exit $rc
